@@ -709,7 +709,7 @@ class C16Lane(Lane):
     RATE_GUARDS = {("d3", "findings", "D3"): (0.65, 10)}
 
     def subs(self, tier):
-        return [("clean", 1400), ("d3", 700)] if tier == "quick" else [("clean", 40000), ("d3", 20000)]
+        return [("clean", 1400), ("d3", 700)] if tier == "quick" else [("clean", 70000), ("d3", 20000)]
 
     def gen(self, seed, run, sub, tier):
         return gen(seed, run, sub, tier)
